@@ -158,6 +158,7 @@ Inductive step : Set :=
 | WriteEnvFail (c : N)   (* the same write failing because the peer is gone *)
 | WStall (c : N)         (* lock writer; the write blocks: peer not reading *)
 | WStallEnd (c : N)      (* the blocked write ends: abandoned with an error if writes were failed meanwhile *)
+| WStallEnvFail (c : N)  (* the blocked write ends with an error because the peer is gone *)
 | TFire (c : N)          (* the per-call timeout expires *)
 | TRemove (c : N)        (* remove_pending / PendingRequestGuard::drop; return the timeout error *)
 | Cancel (c : N)         (* the call's future is dropped (async, WebSocket) *)
@@ -170,7 +171,8 @@ Inductive step : Set :=
 | SubEnd                 (* take_notify_sender *)
 | OwnShut                (* reader.get_ref().shutdown(Both) / write_broken, failed_flag := true; notify_waiters *)
 | LockShut               (* lock writer; shutdown / close handshake; unlock *)
-| Drain.                 (* pending.drain(); send every waiter the error *)
+| Drain                  (* pending.drain(); send every waiter the error *)
+| RStop.                 (* async client: told to stop by a FrameWriteGuard, the loop ends without draining *)
 
 Definition lock_free (s : st) : bool := match s_lock s with None => true | Some _ => false end.
 
@@ -200,6 +202,11 @@ Definition do_step (s : st) (e : step) : st :=
   | WStallEnd c =>
       match stof s c with
       | CStall id mb => let s1 := set_lock s None in if s_shut s then fail_write s1 c id true else written s1 c id mb
+      | _ => s
+      end
+  | WStallEnvFail c =>
+      match stof s c with
+      | CStall id mb => fail_write (set_lock s None) c id true
       | _ => s
       end
   | TFire c => match stof s c with CWait id => set_pc s (s_pending s) (cset (s_cs s) c (CFired id)) | _ => s end
@@ -260,6 +267,11 @@ Definition do_step (s : st) (e : step) : st :=
       match s_rd s, s_kind s with
       | RShutDone, KTcp => set_rd (drain_all s) RDead
       | ROwnShut, (KAsync | KWs) => set_rd (drain_all s) RDrained
+      | _, _ => s
+      end
+  | RStop =>
+      match s_rd s, s_kind s with
+      | RAlive, KAsync => if s_gstop s then set_rd s RDead else s
       | _, _ => s
       end
   end.
@@ -593,6 +605,19 @@ Definition ok_C06 (k : case) (o : obs) : bool :=
       (o_nn o =? p_nn p) &&
       list_eqb Bool.eqb (o_resid o) (repeat false (p_nprobe p))
   end.
+
+Definition is_stall (e : event) : bool := match e with EStallStart _ => true | _ => false end.
+
+(** what the correspondence check compares.  With a stalled writer on the
+    async client and a fault that also closes the connection, the failing
+    write's guard may end the response loop ([RStop]) before the loop itself
+    notices the fault: whether the loop reached its probe point is then a race
+    the harness cannot decide, and [o_rd] is not compared *)
+Definition obs_match (k : case) (a b : obs) : bool :=
+  list_eqb oclass_eqb (o_res a) (o_res b) && osub_eqb (o_sub a) (o_sub b) &&
+  list_eqb osub_eqb (o_subq a) (o_subq b) && (o_nn a =? o_nn b) &&
+  (Bool.eqb (o_rd a) (o_rd b) || (is_async (k_kind k) && existsb is_stall (k_script k))) &&
+  list_eqb Bool.eqb (o_resid a) (o_resid b).
 
 Definition obs_eqb (a b : obs) : bool :=
   list_eqb oclass_eqb (o_res a) (o_res b) && osub_eqb (o_sub a) (o_sub b) &&
